@@ -71,7 +71,8 @@ def one_case(args):
             fargs = R.filter_args(kind, v)
             argv = ([] if use_stdin else [path]) + fargs + (["-o", "stdout"] if to_stdout and rng.random() < 0.5 else [])
             r = obs.run(exe, argv, stdin_path=path if use_stdin else None, workdir=wd, stats="json",
-                        out_name=(not to_stdout), tag="c%d" % case, prefill_out=(b"\x5a" * (len(data) + 4096) if case % 2 == 0 else None), stdin_chunk=(rng.choice([None, None, 13, 512, 8191, 8193]) if use_stdin and npk <= 400 else None))
+                        out_name=(not to_stdout), tag="c%d" % case, prefill_out=(b"\x5a" * (len(data) + 4096) if case % 2 == 0 else None), stdin_chunk=(rng.choice([None, None, 13, 512, 8191, 8193]) if use_stdin and npk <= 400 else None),
+                        out_limit=(3 * len(data) + (16 << 20)) if npk >= 1000 else None)
             got = r.stdout if to_stdout else r.out_file
             exp = ref_filter(pkts, kind, v)
             want = b"".join(R.pack(p.f) + p.payload for p in exp)
@@ -148,7 +149,8 @@ def mega_case(args):
     out["sample"] = desc
     out["key"] = ("mega", use_stdin, to_stdout)
     try:
-        r = obs.run(exe, ([] if use_stdin else [path]) + ["-f", "0"], stdin_path=path if use_stdin else None, workdir=wd, stats="json", out_name=(not to_stdout), tag="m%d" % case, timeout=600)
+        r = obs.run(exe, ([] if use_stdin else [path]) + ["-f", "0"], stdin_path=path if use_stdin else None, workdir=wd, stats="json", out_name=(not to_stdout), tag="m%d" % case, timeout=600,
+                    out_limit=3 * len(want_block) * reps + (16 << 20))
     finally:
         os.unlink(path)
     got = r.stdout if to_stdout else (r.out_file or b"")
